@@ -34,7 +34,7 @@ ASSUMPTIONS = ["uuid4 stream ids are never repeated (model: a counter)",
                "a single dict operation and a single next() of one iterator are atomic (GIL); two threads never call next() on the same stream at once",
                "the daemon is not shutting down (housekeeping returns early then)",
                "iterator exceptions are subclasses of Exception (BaseException escapes `except Exception` and is outside the alphabet)"]
-TRUSTED = ["harness/props/c10_wire.py: real multiplex server thread + real proxies over a unix socket, synchronised by completed round trips",
+TRUSTED = ["harness/props/c10_wire.py: real multiplex server (requestLoop, or an application loop calling daemon.events) + real proxies over a unix socket, synchronised by completed round trips",
            "harness/sched.py (deterministic scheduler, instrumented stream-table dict)",
            "the fake proxy of harness/props/c10.py stands for Proxy._pyroInvoke (connect on demand, 16-bit sequence number, forwards to the daemon object)"]
 
@@ -99,7 +99,7 @@ def extract():
 
 def _seq_mask():
     from props import c10_probe
-    return c10_probe.facts()["mask"]
+    return c10_probe.facts()["mask"] or 0xffff
 
 
 # ----------------------------------------------------------------------------------------------------
